@@ -31,9 +31,9 @@ theorem beq_zero_true {n : Nat} (h : n = 0) : (n == 0) = true := by simp [h]
 theorem decide_pos_true {n : Nat} (h : 0 < n) : decide (n > 0) = true := by simp [h]
 theorem decide_pos_false {n : Nat} (h : n = 0) : decide (n > 0) = false := by simp [h]
 
-theorem decreaseKBy1_spec (s : Sk Rat) (ins L : List E) (hinv : Inv0 s ins L) (hg : s.gadget = true) (hk : 2 ≤ s.k)
+theorem decreaseKBy1_spec (T : Tunables) (s : Sk Rat) (ins L : List E) (hinv : Inv0 s ins L) (hg : s.gadget = true) (hk : 2 ≤ s.k)
     (hn : 1 ≤ s.n) (ds : Draws Rat) :
-    ∃ s' ds' ins' L', decreaseKBy1 s ds = some (s', ds') ∧ Inv0 s' ins' L' ∧ ins'.Perm ins ∧
+    ∃ s' ds' ins' L', decreaseKBy1 T s ds = some (s', ds') ∧ Inv0 s' ins' L' ∧ ins'.Perm ins ∧
       s'.k = s.k - 1 ∧ s'.gadget = true ∧ s'.n = s.n := by
   unfold decreaseKBy1
   have hk1 : ¬ s.k ≤ 1 := by omega
@@ -171,7 +171,7 @@ theorem decreaseKBy1_spec (s : Sk Rat) (ins L : List E) (hinv : Inv0 s ins L) (h
           · intro e he
             show s.totalWtR ≤ e.wt * (((rl :: s.R.dropLast).length : Nat) : Rat)
             rw [hRlen]; exact hest.hHeavy e (hHsub e he)
-      obtain ⟨s', ds', L', hu, hinv', hk', hg', _, hn', _⟩ := update0_spec _ _ L hinv1 pulled.item pulled.wt pulled.mark ds
+      obtain ⟨s', ds', L', hu, hinv', hk', hg', _, hn', _⟩ := update0_spec T _ _ L hinv1 pulled.item pulled.wt pulled.mark ds
         (hinv.pos pulled hpulled_ins) (fun _ => hg)
       have hentry : mkEntry
           { s with H := s.H.dropLast, R := rl :: s.R.dropLast,
@@ -254,8 +254,8 @@ theorem Inv0.wellFormed_clear {s : Sk Rat} {ins L : List E} (h : Inv0 s ins L) (
   obtain ⟨x, hx, rfl⟩ := List.mem_map.mp hem
   exact he.tau_le hr (e := x) hx
 
-theorem migrateLoop_spec (fuel : Nat) : ∀ (s : Sk Rat) (ins L : List E) (ds : Draws Rat) (s' : Sk Rat) (ds' : Draws Rat),
-    Inv0 s ins L → s.gadget = true → 1 ≤ s.n → migrateLoop fuel s ds = some (s', ds') →
+theorem migrateLoop_spec (T : Tunables) (fuel : Nat) : ∀ (s : Sk Rat) (ins L : List E) (ds : Draws Rat) (s' : Sk Rat) (ds' : Draws Rat),
+    Inv0 s ins L → s.gadget = true → 1 ≤ s.n → migrateLoop T fuel s ds = some (s', ds') →
     ∃ ins' L', Inv0 s' ins' L' ∧ ins'.Perm ins ∧ s'.numMarksInH = 0 ∧ s'.k ≤ s.k ∧ s'.n = s.n := by
   induction fuel with
   | zero =>
@@ -272,12 +272,12 @@ theorem migrateLoop_spec (fuel : Nat) : ∀ (s : Sk Rat) (ins L : List E) (ds : 
     simp only [migrateLoop] at h
     split at h
     · by_cases hk : 2 ≤ s.k
-      · obtain ⟨s1, ds1, ins1, L1, hd, hinv1, hperm1, hk1, hg1, hn1⟩ := decreaseKBy1_spec s ins L hinv hg hk hn ds
+      · obtain ⟨s1, ds1, ins1, L1, hd, hinv1, hperm1, hk1, hg1, hn1⟩ := decreaseKBy1_spec T s ins L hinv hg hk hn ds
         rw [hd] at h
         simp only [] at h
         obtain ⟨ins2, L2, hinv2, hperm2, hm2, hk2, hn2⟩ := ih s1 ins1 L1 ds1 s' ds' hinv1 hg1 (by omega) h
         exact ⟨ins2, L2, hinv2, hperm2.trans hperm1, hm2, by omega, by rw [hn2, hn1]⟩
-      · have : decreaseKBy1 s ds = none := by
+      · have : decreaseKBy1 T s ds = none := by
           unfold decreaseKBy1
           simp only [show s.k ≤ 1 by omega, if_true]
         rw [this] at h
@@ -308,20 +308,20 @@ theorem foldl_add_eq' (l : List E) (acc : Rat) : l.foldl (fun a e => a + e.wt) a
 theorem foldl_add_eq (l : List E) (acc : Rat) : l.foldl (fun a e => Num.add a e.wt) acc = acc + sumW l := by
   simpa using foldl_add_eq' l acc
 
-theorem migrateFrom_spec (g1 : Sk Rat) (insG LG : List E) (tot : Rat) (cnt maxK : Nat)
+theorem migrateFrom_spec (T : Tunables) (g1 : Sk Rat) (insG LG : List E) (tot : Rat) (cnt maxK : Nat)
     (hinv1 : Inv0 g1 insG LG) (hgg1 : g1.gadget = true) (hn1 : g1.n = cnt) (hk1 : g1.k ≤ maxK) (hcnt1 : 1 ≤ cnt)
     (htot : sumW insG = tot) (ds : Draws Rat) (res : Sk Rat) (ds' : Draws Rat)
-    (h : migrateFrom g1 ds = some (res, ds')) : ResOK res cnt tot maxK ∧ WellFormed res := by
+    (h : migrateFrom T g1 ds = some (res, ds')) : ResOK res cnt tot maxK ∧ WellFormed res := by
   unfold migrateFrom at h
   by_cases hk2 : 2 ≤ g1.k
   · obtain ⟨g2, ds2, ins2, L2, hd, hinv2, hperm2, hk2', hg2, hn2⟩ :=
-      decreaseKBy1_spec g1 insG LG hinv1 hgg1 hk2 (by rw [hn1]; exact hcnt1) ds
+      decreaseKBy1_spec T g1 insG LG hinv1 hgg1 hk2 (by rw [hn1]; exact hcnt1) ds
     rw [hd] at h
     simp only [] at h
     by_cases hz : tauIsZero g2 = true
     · rw [if_pos hz] at h; exact absurd h (by simp)
     · rw [if_neg hz] at h
-      cases hml : migrateLoop g2.k g2 ds2 with
+      cases hml : migrateLoop T g2.k g2 ds2 with
       | none => rw [hml] at h; exact absurd h (by simp)
       | some p =>
         obtain ⟨g3, ds3⟩ := p
@@ -330,7 +330,7 @@ theorem migrateFrom_spec (g1 : Sk Rat) (insG LG : List E) (tot : Rat) (cnt maxK 
         injection h with h; injection h with h1 h2
         subst h1
         obtain ⟨ins3, L3, hinv3, hperm3, hm3, hk3, hn3⟩ :=
-          migrateLoop_spec g2.k g2 ins2 L2 ds2 g3 ds3 hinv2 hg2 (by rw [hn2, hn1]; exact hcnt1) hml
+          migrateLoop_spec T g2.k g2 ins2 L2 ds2 g3 ds3 hinv2 hg2 (by rw [hn2, hn1]; exact hcnt1) hml
         refine ⟨?_, hinv3.wellFormed_clear _ rfl rfl rfl⟩
         refine { n_eq := ?_, weight := ?_, size := ?_, kLe := ?_, notGadget := rfl, noMarkCount := rfl,
                  noMarks := clearMarks_noMarks _ }
@@ -344,11 +344,84 @@ theorem migrateFrom_spec (g1 : Sk Rat) (insG LG : List E) (tot : Rat) (cnt maxK 
           rw [clearMarks_length]; exact hinv3.size_le
         · show g3.k ≤ maxK
           omega
-  · have : decreaseKBy1 g1 ds = none := by
+  · have : decreaseKBy1 T g1 ds = none := by
       unfold decreaseKBy1
       simp only [show g1.k ≤ 1 by omega, if_true]
     rw [this] at h
     exact absurd h (by simp)
+
+/-- the H region of a mark-moving result: the unmarked gadget entries, re-heapified in the repaired shape -/
+def unmarkedOf (g : Sk Rat) : List (Entry Rat) := g.H.filter (fun e : Entry Rat => !e.mark)
+
+def mmH (T : Tunables) (g : Sk Rat) : List E :=
+  if T.coercerHeapify then convertToHeap (clearMarks (unmarkedOf g)) else clearMarks (unmarkedOf g)
+
+theorem pseudoExact_inv {T : Tunables} {u : Un Rat} {sk r : Sk Rat} (h : pseudoExact T u sk = some (some r)) :
+    u.gadget.R = [] ∧ 0 < u.gadget.numMarksInH ∧ u.gadget.numMarksInH = u.outerTauDenom ∧
+    existUnmarkedLighter u.gadget (if T.coercerOuterTau then some u.outerTau else u.gadget.tau) = false ∧
+    markMovingCoercer T u sk = some r := by
+  unfold pseudoExact at h
+  simp only [] at h
+  by_cases hc : (u.gadget.R.length == 0 && decide (u.gadget.numMarksInH > 0) && u.gadget.numMarksInH == u.outerTauDenom) = true
+  · rw [hc] at h
+    simp only [Bool.not_true, Bool.false_eq_true, if_false] at h
+    by_cases he : existUnmarkedLighter u.gadget (if T.coercerOuterTau then some u.outerTau else u.gadget.tau) = true
+    · rw [if_pos he] at h; exact absurd h (by simp)
+    · rw [if_neg he] at h
+      injection h with h
+      simp only [Bool.and_eq_true, beq_iff_eq, decide_eq_true_eq] at hc
+      exact ⟨List.eq_nil_of_length_eq_zero hc.1.1, hc.1.2, hc.2, by simpa using he, h⟩
+  · have hc' : (u.gadget.R.length == 0 && decide (u.gadget.numMarksInH > 0) && u.gadget.numMarksInH == u.outerTauDenom) = false := by
+      simpa using hc
+    rw [hc'] at h
+    simp at h
+
+theorem markMoving_inv {T : Tunables} {u : Un Rat} {sk r : Sk Rat} (h : markMovingCoercer T u sk = some r) :
+    r.k = u.gadget.H.length + u.gadget.R.length ∧ r.n = u.n ∧ r.H = mmH T u.gadget ∧
+    r.R = (u.gadget.R ++ (u.gadget.H.filter (fun e => e.mark)).map (fun e => e.item)).reverse ∧
+    r.totalWtR = u.gadget.totalWtR + sumW (u.gadget.H.filter (fun e => e.mark)) ∧ r.gadget = false ∧ r.numMarksInH = 0 ∧
+    r.M = [] := by
+  unfold markMovingCoercer at h
+  simp only [] at h
+  repeat' split at h
+  all_goals first
+    | (injection h with h; subst h; simp [mmH, unmarkedOf, clearMarks, foldl_add_eq', *])
+    | injection h
+
+theorem markMoving_resOK (T : Tunables) (u : Un Rat) (insG LG : List E) (tot : Rat) (cnt : Nat)
+    (hu : UInv u insG LG tot cnt) (hR : u.gadget.R = []) (sk r : Sk Rat)
+    (h : markMovingCoercer T u sk = some r) : ResOK r cnt tot u.maxK := by
+  have hg0 := hu.ginv.toInv0
+  obtain ⟨hk, hn, hH, hRr, hW, hgad, hnm, _⟩ := markMoving_inv h
+  obtain ⟨_, hhk, hW0⟩ := hg0.warm hR
+  have hmmperm : (mmH T u.gadget).Perm (clearMarks (unmarkedOf u.gadget)) := by
+    unfold mmH; split
+    · exact convertToHeap_perm _
+    · exact List.Perm.refl _
+  have hsplit := sumW_filter_split u.gadget.H
+  have hlsplit := length_filter_split u.gadget.H
+  refine { n_eq := by rw [hn, hu.n_eq], weight := ?_, size := ?_, kLe := ?_, notGadget := hgad, noMarkCount := hnm, noMarks := ?_ }
+  · have hw := hg0.skWeight_eq
+    unfold skWeight at hw ⊢
+    rw [if_pos hR, add_zero] at hw
+    rw [hH, sumW_perm hmmperm, sumW_clearMarks, hRr, hW, hW0, hR]
+    unfold unmarkedOf
+    by_cases hmk : u.gadget.H.filter (fun e : Entry Rat => e.mark) = []
+    · rw [hmk] at hsplit ⊢
+      simp [sumW] at hsplit ⊢
+      rw [hsplit, hw, hu.tot_eq]
+    · have : ¬ ([] ++ List.map (fun e : Entry Rat => e.item) (List.filter (fun e : Entry Rat => e.mark) u.gadget.H)).reverse = [] := by
+        simpa using hmk
+      rw [if_neg this]
+      linarith [hu.tot_eq]
+  · rw [hH, hmmperm.length_eq, clearMarks_length, hRr, hk, hR]
+    unfold unmarkedOf
+    simp only [List.nil_append, List.length_reverse, List.length_map, List.length_nil, Nat.add_zero]
+    omega
+  · rw [hk, hR, ← hu.kEq]; simpa using hhk
+  · intro e he
+    rw [hH] at he
+    exact clearMarks_noMarks _ e (hmmperm.subset he)
 
 theorem getResult_spec (T : Tunables) (u : Un Rat) (insG LG : List E) (tot : Rat) (cnt : Nat)
     (hu : UInv u insG LG tot cnt) (ds : Draws Rat) (res : Sk Rat) (ds' : Draws Rat)
@@ -390,56 +463,8 @@ theorem getResult_spec (T : Tunables) (u : Un Rat) (insG LG : List E) (tot : Rat
       injection h with h; injection h with h1 h2
       subst h1
       refine ⟨?_, fun hnone => by rw [hnone] at hpe; exact absurd hpe (by simp)⟩
-      unfold pseudoExact at hpe
-      simp only [] at hpe
-      split at hpe
-      · exact absurd hpe (by simp)
-      · rename_i hc
-        split at hpe
-        · exact absurd hpe (by simp)
-        · injection hpe with hpe
-          unfold markMovingCoercer at hpe
-          simp only [] at hpe
-          split at hpe
-          · exact absurd hpe (by simp)
-          · injection hpe with hpe
-            have hR : u.gadget.R = [] := by
-              by_contra hne
-              have : (u.gadget.R.length == 0) = false := beq_zero_false (length_pos_of_ne_nil hne)
-              simp [this] at hc
-            obtain ⟨_, hhk, hW0⟩ := hg0.warm hR
-            subst hpe
-            refine { n_eq := hu.n_eq, weight := ?_, size := ?_, kLe := ?_, notGadget := rfl, noMarkCount := rfl,
-                     noMarks := ?_ }
-            · unfold skWeight
-              simp only [hR, List.nil_append, List.length_nil, Nat.add_zero, Num.add_rat, Num.zero_rat, hW0, zero_add,
-                foldl_add_eq']
-              have hsplit := sumW_filter_split u.gadget.H
-              have hw := hg0.skWeight_eq
-              unfold skWeight at hw
-              rw [if_pos hR, add_zero] at hw
-              have hcm : sumW (List.map (fun e => ({ e with mark := false } : E)) (u.gadget.H.filter (fun e => !e.mark)))
-                  = sumW (u.gadget.H.filter (fun e => !e.mark)) := sumW_clearMarks _
-              rw [hcm]
-              by_cases hmk : (List.map (fun x => x.item) (List.filter (fun x => x.mark) u.gadget.H)).reverse = []
-              · rw [if_pos hmk]
-                have : u.gadget.H.filter (·.mark) = [] := by simpa using hmk
-                rw [this] at hsplit
-                simp [sumW] at hsplit
-                rw [add_zero, hsplit, hw, hu.tot_eq]
-              · rw [if_neg hmk]
-                linarith [hu.tot_eq]
-            · show (List.map (fun e => ({ e with mark := false } : E)) (u.gadget.H.filter (fun e => !e.mark))).length +
-                  ((u.gadget.R ++ List.map (fun x => x.item) (u.gadget.H.filter (·.mark))).reverse).length ≤
-                  u.gadget.H.length + u.gadget.R.length
-              have := length_filter_split u.gadget.H
-              simp only [List.length_map, List.length_reverse, List.length_append, hR, List.length_nil, Nat.zero_add, Nat.add_zero]
-              omega
-            · show u.gadget.H.length + u.gadget.R.length ≤ u.maxK
-              rw [hR, ← hu.kEq]; simpa using hhk
-            · intro e he
-              obtain ⟨x, _, rfl⟩ := List.mem_map.mp he
-              rfl
+      obtain ⟨hR, _, _, _, hmm⟩ := pseudoExact_inv hpe
+      exact markMoving_resOK T u insG LG tot cnt hu hR _ r hmm
     · exact absurd h (by simp)
     · -- migrate marked items by decreasing k
       unfold migrateMarked at h
@@ -454,13 +479,85 @@ theorem getResult_spec (T : Tunables) (u : Un Rat) (insG LG : List E) (tot : Rat
             simp only [Bool.and_eq_true, beq_iff_eq, decide_eq_true_eq] at hc
             have hR : u.gadget.R = [] := List.eq_nil_of_length_eq_zero hc.1
             obtain ⟨hL, _, hW0⟩ := hg0.warm hR
-            refine (fun p => ⟨p.1, fun _ => p.2⟩) (migrateFrom_spec ({ ({ u.gadget with n := u.n } : Sk Rat) with k := u.gadget.H.length }) insG LG tot cnt u.maxK ?_ hu.isGadget hu.n_eq ?_ (by rw [← hu.n_eq]; exact hcnt1) hu.tot_eq ds res ds' h)
+            refine (fun p => ⟨p.1, fun _ => p.2⟩) (migrateFrom_spec T ({ ({ u.gadget with n := u.n } : Sk Rat) with k := u.gadget.H.length }) insG LG tot cnt u.maxK ?_ hu.isGadget hu.n_eq ?_ (by rw [← hu.n_eq]; exact hcnt1) hu.tot_eq ds res ds' h)
             · exact { kpos := length_pos_of_ne_nil hHne, mnil := hg0.mnil, fresh := hg0.fresh, perm := hg0.perm,
                       pos := hg0.pos, marks := hg0.marks, warm := fun _ => ⟨hL, le_refl _, hW0⟩,
                       est := fun hr => absurd hR hr }
             · show u.gadget.H.length ≤ u.maxK
               rw [← hu.kEq]; exact le_of_lt hc.2
-          · exact (fun p => ⟨p.1, fun _ => p.2⟩) (migrateFrom_spec ({ u.gadget with n := u.n } : Sk Rat) insG LG tot cnt u.maxK hgc hu.isGadget hu.n_eq (le_of_eq hu.kEq)
+          · exact (fun p => ⟨p.1, fun _ => p.2⟩) (migrateFrom_spec T ({ u.gadget with n := u.n } : Sk Rat) insG LG tot cnt u.maxK hgc hu.isGadget hu.n_eq (le_of_eq hu.kEq)
               (by rw [← hu.n_eq]; exact hcnt1) hu.tot_eq ds res ds' h)
+
+-- ------------------------------------------------------------------ the repaired coercer
+
+theorem existUnmarkedLighter_false {g : Sk Rat} {t : Rat} (h : existUnmarkedLighter g (some t) = false) :
+    ∀ e ∈ g.H, e.mark = false → t ≤ e.wt := by
+  intro e he hm
+  unfold existUnmarkedLighter at h
+  simp only [List.any_eq_false] at h
+  have := h e he
+  simp [hm] at this
+  exact this
+
+/-- with the repaired coercer (guard against the outer tau, result re-heapified) EVERY result of `get_result` is a
+    valid estimation-mode state -/
+theorem getResult_wf_current (T : Tunables) (hT1 : T.coercerOuterTau = true) (hT2 : T.coercerHeapify = true)
+    (u : Un Rat) (insG LG : List E) (tot : Rat) (cnt : Nat) (hu : UInv u insG LG tot cnt) (hb : TauBook u insG)
+    (ds : Draws Rat) (res : Sk Rat) (ds' : Draws Rat) (h : u.getResult T ds = some (res, ds')) : WellFormed res := by
+  have hspec := getResult_spec T u insG LG tot cnt hu ds res ds' h
+  cases hpe : pseudoExact T u { u.gadget with n := u.n } with
+  | none => exact hspec.2 hpe
+  | some o =>
+    -- the mark-moving coercer was taken
+    have hg0 := hu.ginv.toInv0
+    unfold Un.getResult at h
+    by_cases hm0 : u.gadget.numMarksInH = 0
+    · -- impossible: pseudo-exact needs marks
+      exfalso
+      cases o with
+      | none =>
+        unfold pseudoExact at hpe
+        simp [hm0] at hpe
+      | some r =>
+        have := (pseudoExact_inv hpe).2.1
+        omega
+    · have hm0' : (u.gadget.numMarksInH == 0) = false := by simp [hm0]
+      simp only [hm0', Bool.false_eq_true, if_false] at h
+      rw [hpe] at h
+      cases o with
+      | none => exact absurd h (by simp)
+      | some r =>
+        simp only [] at h
+        injection h with h; injection h with h1 h2
+        subst h1
+        obtain ⟨hR, hmpos, hc3, hguard, hmm⟩ := pseudoExact_inv hpe
+        rw [if_pos hT1] at hguard
+        obtain ⟨hk, hn, hH, hRr, hW, _, _, _⟩ := markMoving_inv hmm
+        obtain ⟨hL, _, hW0⟩ := hg0.warm hR
+        -- everything ever fed is still in H
+        have hperm : insG.Perm u.gadget.H := by have := hg0.perm; rw [hL] at this; simpa using this
+        have hcm : countMarks insG = countMarks u.gadget.H := countMarks_perm hperm
+        have hden : u.outerTauDenom = countMarks insG := by rw [← hc3, hg0.marks.1, hcm]
+        have hnum : u.outerTauNumer = sumW (u.gadget.H.filter (·.mark)) := by
+          rw [hb.2 hden]; exact sumW_perm (hperm.filter _)
+        have hdpos : 0 < u.outerTauDenom := by rw [← hc3]; exact hmpos
+        have hrlen : r.R.length = u.outerTauDenom := by
+          rw [hRr, hR, hden, hcm]; simp [countMarks]
+        have htau : r.totalWtR / (r.R.length : Rat) = u.outerTau := by
+          rw [hW, hW0, zero_add, hrlen, ← hnum]
+          unfold Un.outerTau
+          have : (u.outerTauDenom == 0) = false := by simp; omega
+          simp [this]
+        intro _
+        rw [hH, htau]
+        unfold mmH
+        rw [if_pos hT2]
+        refine ⟨convertToHeap_heap _, ?_⟩
+        intro e he
+        have he' := (convertToHeap_perm _).subset he
+        obtain ⟨x, hx, rfl⟩ := List.mem_map.mp he'
+        unfold unmarkedOf at hx
+        obtain ⟨hxH, hxm⟩ := List.mem_filter.mp hx
+        exact existUnmarkedLighter_false hguard x hxH (by simpa using hxm)
 
 end DS.VarOpt
